@@ -5,7 +5,7 @@ From Coq Require Import List Bool Arith NArith ZArith String.
 From Coq.Strings Require Import Byte.
 From Verif.Base Require Import Bytes Outcome Str.
 From Verif.Model Require Import IE Codec Record SetB Msg Exporter Rfc7011.
-From Verif.Proofs Require Import SetB_lemmas Exporter_lemmas C08_lemmas Rfc_lemmas RfcData_lemmas C09_oracle.
+From Verif.Proofs Require Import SetB_lemmas Exporter_lemmas C08_lemmas Rfc_lemmas RfcData_lemmas RfcApi_lemmas C09_oracle.
 From Verif.Driver Require Import Show SetShow HistShow RfcCheck C02drv.
 Import ListNotations.
 Local Open Scope N_scope.
@@ -76,6 +76,22 @@ Theorem C02_data_sets : forall widths st ops t bytes ws,
                (hdr_id s) (blen bytes - 16) (WData d)).
 Proof. exact wellformed_data_set_tpl. Qed.
 Print Assumptions C02_data_sets.
+
+(* The same at the level of the API calls: PrepareSet(Data, tid), one add per record in any
+   of the three forms (k >= 0), SendSet. For every template (widths ws, one of them non-zero),
+   every list of well-typed records of it and every state in which the send succeeds, the
+   independent parser, given ws for tid, returns set id tid and the RFC octets of every value. *)
+Theorem C02_data_exchange : forall widths st tid frs t bytes ws,
+  let s := set_of (OPrepare SData tid :: add_ops tid frs) in
+  st_wf st -> r_wire (send_set cur st s t) = Some bytes ->
+  256 <= tid < 65536 -> widths tid = Some ws -> Exists (fun w => w <> 0) ws ->
+  Forall (fun fr => form_ok (fst fr) = true /\ wf_record (snd fr) = true /\ widths_of (snd fr) = ws) frs ->
+  exists d, opt_all (map (fun fr => octets_of (snd fr)) frs) = Some d /\
+  rfc_parse widths bytes =
+    Some (mkWM 10 (blen bytes) (t mod 2 ^ 32) (seq_next (x_seq st) s mod 2 ^ 32) (x_obs st mod 2 ^ 32)
+               tid (blen bytes - 16) (WData d)).
+Proof. exact data_exchange. Qed.
+Print Assumptions C02_data_exchange.
 
 (* The headline: frame + template records + data records. Every message SendSet transmits
    for a set in scope (c02_scope: a template set of records within the specifier ranges, or a
